@@ -15,7 +15,24 @@ def main(tier, seed, t0):
     cow.MIR, th = load_mir('on'); cow2.MIR = cow.MIR
     items = cow.items_for(tier, seed) + cow2.items_for(tier, seed)
     merged, per = pmap(run_shape, items, tier)
-    return finish(PROP, tier, seed, merged, t0, th=th,
+    # translator validation for the Rc model: what it calls "in place" must also scale like in-place natively
+    # (k mutation steps on n_small vs n_big elements through the surface language, release build)
+    validated = 0; vfail = []
+    specs = []
+    for op in cow.OPS:
+        for shape in cow.SHAPES:
+            if op in ('try_pop', 'try_remove_index', 'modify_existing_index') and shape not in ('list3', 'list2x2'): continue
+            if op == 'set_every_slice' and shape not in ('list3', 'list2x2', 'list_of_vec'): continue
+            specs.append((f'{op} {shape}', cow.timing_replay(op, shape, 'none')['timing']))
+    for op in cow2.DOPS:
+        for wd in (False, True): specs.append((f'dict {op} default={wd}', cow2.timing(op, wd, 'none')['timing']))
+    if tier == 'quick': specs = specs[::2] if seed % 2 == 0 else specs[1::2]
+    for name, tm in specs:
+        best = measure_timing(tm); slow = timing_is_slow(tm, best)
+        if slow is None: vfail.append(f'scaling measurement for {name} did not run: {tm["big"]} -> {best}')
+        elif slow: vfail.append(f'native scaling contradicts the model (which found no copy) for {name}: {tm["big"]} -> {best}')
+        else: validated += 1
+    return finish(PROP, tier, seed, merged, t0, th=th, validated=validated, validation_failures=vfail,
         kernels=['eval.rs: set_index (list / nested / vector / bytes / dict / string arms, every-slice arm, LHS-dropping call), modify_existing_index (list and dict arms)', 'core.rs: Obj::try_pop, Obj::try_remove_index, pythonic_mut'],
         bounds={'targets': 'list of 3, nested list 2x2, vector of 3, bytes of 3, list of 2 vectors, dict with two list rows (with/without default), string "abc"', 'aliases': 'none / outer / inner / both',
                 'index path': 'every integer in both representations; every dict key', 'steps': 'two consecutive identical steps'},
